@@ -6,6 +6,7 @@ package main
 // cycle" probe, and the independent log-file parser the oracles work on.
 
 import (
+	"context"
 	"fmt"
 	"os"
 	"path/filepath"
@@ -18,6 +19,7 @@ import (
 	"time"
 	"unsafe"
 
+	"github.com/whatap/golib/config"
 	"github.com/whatap/golib/logger"
 	"github.com/whatap/golib/logger/logfile"
 	"github.com/whatap/golib/util/dateutil"
@@ -155,7 +157,23 @@ type scn struct {
 	// ownDiag: an open failure was provoked - whole lines without a message token (the logger's
 	// own report of the failure) are not counted as torn lines
 	ownDiag bool
+
+	// further configuration dimensions, drawn from rc (a stream forked off the case's stream)
+	rc        *vlib.Rand
+	sec       string   // section the scenario belongs to
+	zone      string   // time zone of the process while the scenario runs
+	stdout    bool     // stdout mirror effectively on
+	stdoutBy  string   // how it was switched on: "WithStdout(true)" or "log_stdout_enabled=true"
+	stdoutOpt int      // WithStdout option handed to the constructor: -1 none, 0 false, 1 true
+	homeVia   string   // WithHomePath | WHATAP_HOME | WithHomePath("")+WHATAP_HOME
+	namesVia  string   // WithOnameLogID | defaults (option omitted)
+	applyVia  string   // ApplyConfig | ConfigObserver.Run
+	withCtx   bool     // the (inert) WithContext option is passed too
+	omitted   []string // options / keys left out because the drawn value is the documented default
 }
+
+// curSec is the section whose cases are running (sections run one after another).
+var curSec string
 
 var singletonUsed bool
 
@@ -220,6 +238,19 @@ func newScn(c *vlib.Ctx, r *vlib.Rand) *scn {
 	}
 	s.level = r.Intn(4)
 	s.interval, s.keep, s.rot = 10, 7, true
+	// the remaining dimensions come from a forked stream, drawn here and in start()
+	s.rc = r.Fork("config-dimensions")
+	s.sec = curSec
+	s.zone = enterZone(c, s.rc)
+	s.stdout = s.rc.Chance(1, 2)
+	s.stdoutOpt = -1
+	s.homeVia = []string{"WithHomePath", "WithHomePath", "WHATAP_HOME", `WithHomePath("")+WHATAP_HOME`}[s.rc.Intn(4)]
+	s.namesVia = "WithOnameLogID"
+	if s.id == "whatap" && s.oname == "boot" && s.rc.Chance(1, 2) {
+		s.namesVia = "defaults (option omitted)"
+	}
+	s.applyVia = []string{"ApplyConfig", "ApplyConfig", "ConfigObserver.Run"}[s.rc.Intn(3)]
+	s.withCtx = s.rc.Chance(1, 5)
 	return s
 }
 
@@ -228,9 +259,52 @@ func newScn(c *vlib.Ctx, r *vlib.Rand) *scn {
 // settings through the production ApplyConfig path followed by one cycle (a changed rotation
 // flag takes effect at the next cycle).
 func (s *scn) start() {
-	opts := []logfile.FileLoggerOption{logfile.WithHomePath(s.home), logfile.WithOnameLogID(s.oname, s.id)}
+	rc := s.rc
+	var opts []logfile.FileLoggerOption
+	switch s.homeVia {
+	case "WithHomePath":
+		opts = append(opts, logfile.WithHomePath(s.home))
+	case "WHATAP_HOME":
+		os.Setenv(logfile.HOME_ENV_KEY, s.home)
+		defer os.Unsetenv(logfile.HOME_ENV_KEY)
+	default:
+		opts = append(opts, logfile.WithHomePath(""))
+		os.Setenv(logfile.HOME_ENV_KEY, s.home)
+		defer os.Unsetenv(logfile.HOME_ENV_KEY)
+	}
+	if s.namesVia == "WithOnameLogID" {
+		opts = append(opts, logfile.WithOnameLogID(s.oname, s.id))
+	}
+	omit := func(what string, isDefault bool) bool {
+		if isDefault && rc.Chance(1, 3) {
+			s.omitted = append(s.omitted, what)
+			return true
+		}
+		return false
+	}
 	if !s.useApply {
-		opts = append(opts, logfile.WithLevel(rankConst[s.level]))
+		if !omit("WithLevel", s.level == 2) {
+			opts = append(opts, logfile.WithLevel(rankConst[s.level]))
+		}
+		// no configuration is applied: the option is what switches the mirror on
+		if s.stdout {
+			s.stdoutOpt, s.stdoutBy = 1, "WithStdout(true)"
+		} else {
+			s.stdoutOpt = rc.Intn(2) - 1
+		}
+	} else {
+		// the configuration key decides, whatever the option said
+		s.stdoutOpt = rc.Intn(3) - 1
+		if s.stdout {
+			s.stdoutBy = "log_stdout_enabled=true"
+		}
+	}
+	if s.stdoutOpt >= 0 {
+		opts = append(opts, logfile.WithStdout(s.stdoutOpt == 1))
+	}
+	if s.withCtx {
+		ctx, cancel := context.WithCancel(context.Background())
+		opts = append(opts, logfile.WithContext(ctx, cancel))
 	}
 	if s.singleton {
 		s.fl = logfile.GetFileLogger(opts...)
@@ -248,15 +322,74 @@ func (s *scn) start() {
 	}
 	if s.useApply {
 		s.fl.VerifCycle()
-		s.fl.ApplyConfig(mapConf{
-			"log_rotation_enabled": strconv.FormatBool(s.rot),
-			"log_keep_days":        strconv.Itoa(s.keep),
-			"_log_interval":        strconv.Itoa(s.interval),
-			"log_level":            rankName[s.level],
-			"log_stdout_enabled":   "false",
-		})
+		conf := mapConf{}
+		if !omit("log_rotation_enabled", s.rot) {
+			conf["log_rotation_enabled"] = strconv.FormatBool(s.rot)
+		}
+		if !omit("log_keep_days", s.keep == 7) {
+			conf["log_keep_days"] = strconv.Itoa(s.keep)
+		}
+		if !omit("_log_interval", s.interval == 10) {
+			conf["_log_interval"] = strconv.Itoa(s.interval)
+		}
+		if !omit("log_level", s.level == 2) {
+			conf["log_level"] = rankName[s.level]
+		}
+		if !omit("log_stdout_enabled", !s.stdout) {
+			conf["log_stdout_enabled"] = strconv.FormatBool(s.stdout)
+		}
+		if s.applyVia == "ConfigObserver.Run" {
+			// the production route of a configuration change: the observer hands it to its listeners
+			obs := config.NewConfigObserver()
+			obs.Add("FileLogger-under-test", s.fl)
+			obs.Run(conf)
+		} else {
+			s.fl.ApplyConfig(conf)
+		}
 		s.fl.VerifCycle()
 	}
+	s.recordConfig()
+}
+
+func cls3(v int) string {
+	switch {
+	case v < 0:
+		return "negative"
+	case v == 0:
+		return "0"
+	}
+	return "positive"
+}
+
+// recordConfig writes the configuration of this scenario into the coverage sets.
+func (s *scn) recordConfig() {
+	c := s.c
+	via, mirror := "options-only", "off"
+	if s.useApply {
+		via = "ApplyConfig"
+		c.SetAdd("config_applied_by", s.applyVia)
+	}
+	if s.stdout {
+		mirror = "on:" + s.stdoutBy
+		c.Count("scenarios_with_stdout_mirror_on", 1)
+		c.SetAdd("stdout_mirror_on_in_sections", s.sec)
+	} else {
+		c.Count("scenarios_with_stdout_mirror_off", 1)
+		c.SetAdd("stdout_mirror_off_in_sections", s.sec)
+	}
+	c.SetAdd("config_combinations_seen", fmt.Sprintf("via=%s level=%s rotation=%v stdout=%s interval=%s keep_days=%s",
+		via, rankName[s.level], s.rot, mirror, cls3(s.interval), cls3(s.keep)))
+	c.SetAdd("stdout_option_x_key_seen", fmt.Sprintf("via=%s option=%s effective=%v", via,
+		map[int]string{-1: "none", 0: "WithStdout(false)", 1: "WithStdout(true)"}[s.stdoutOpt], s.stdout))
+	c.SetAdd("home_path_given_by", s.homeVia)
+	c.SetAdd("names_given_by", s.namesVia)
+	for _, o := range s.omitted {
+		c.SetAdd("defaults_left_unset", o)
+	}
+	if s.withCtx {
+		c.Count("scenarios_with_context_option", 1)
+	}
+	c.SetAdd("time_zone_x_section", s.sec+" @ "+s.zone)
 }
 
 func (s *scn) close() {
@@ -282,8 +415,25 @@ func forceRemoveAll(path string) error {
 }
 
 func (s *scn) desc() map[string]interface{} {
-	return map[string]interface{}{"log_id": s.id, "oname": s.oname, "level": rankName[s.level], "interval_s": s.interval,
-		"keep_days": s.keep, "rotation": s.rot, "via_ApplyConfig": s.useApply}
+	m := map[string]interface{}{"log_id": s.id, "oname": s.oname, "level": rankName[s.level], "interval_s": s.interval,
+		"keep_days": s.keep, "rotation": s.rot, "via_ApplyConfig": s.useApply, "stdout_mirror": s.stdout, "time_zone": s.zone,
+		"home_given_by": s.homeVia, "names_given_by": s.namesVia}
+	if s.stdout {
+		m["stdout_mirror_switched_on_by"] = s.stdoutBy
+	}
+	if s.stdoutOpt >= 0 {
+		m["WithStdout_option"] = s.stdoutOpt == 1
+	}
+	if s.useApply {
+		m["config_applied_by"] = s.applyVia
+	}
+	if len(s.omitted) > 0 {
+		m["left_unset_as_default"] = s.omitted
+	}
+	if s.withCtx {
+		m["WithContext_option"] = true
+	}
+	return m
 }
 
 // logName is the file name the property states: <id>-<oname>-<yyyymmdd>.log, undated with
